@@ -47,7 +47,21 @@ func (ft *FT) callName(c *ssa.CallCommon) (name string, callee *ssa.Function, cl
 	if f := c.StaticCallee(); f != nil {
 		return normName(f.String()), f, nil
 	}
-	return "", nil, nil
+	return dynName(c), nil, nil
+}
+
+// dynName: the contract key of a dynamic call through a value of a named func type: dyn(pkg.Type)
+func dynName(c *ssa.CallCommon) string {
+	if c.IsInvoke() || c.StaticCallee() != nil {
+		return ""
+	}
+	if _, ok := c.Value.(*ssa.Builtin); ok {
+		return ""
+	}
+	if n, ok := types.Unalias(c.Value.Type()).(*types.Named); ok {
+		return "dyn(" + normName(types.TypeString(n, nil)) + ")"
+	}
+	return ""
 }
 
 // calleeWrites: syntactic transitive write set of a function (foreign mode: callee-local cells ignored).
@@ -244,6 +258,14 @@ func (ft *FT) callWritesSeen(c *ssa.CallCommon, seen map[*ssa.Function]bool) ([]
 	if pc := ft.paramContract(c.Value); pc != nil && pc.HasMod && len(pc.Modifies) == 0 {
 		return []string{"$next"}, false
 	}
+	if dn := dynName(c); dn != "" {
+		if con := ft.eng.cons.Funcs[dn]; con != nil && con.HasMod {
+			if len(con.Modifies) == 0 {
+				return []string{"$next"}, false
+			}
+			return nil, true
+		}
+	}
 	if c.IsInvoke() {
 		if n, ok := types.Unalias(c.Value.Type()).(*types.Named); ok && n.Obj().Pkg() != nil && isStdPath(n.Obj().Pkg().Path()) {
 			return []string{"$next"}, false
@@ -317,6 +339,9 @@ func (ft *FT) call(st *State, guard Term, c *ssa.CallCommon, preArgs []Term, ins
 			if ft.curBlk != nil {
 				ctx.local = ft.localResolver(ft.curBlk, false, nil, nil, ctx.local)
 			}
+			if callee == nil && !c.IsInvoke() {
+				ctx.vars["self"] = SpecVal{T: ft.val(c.Value), Typ: c.Value.Type(), Sort: "Int"}
+			}
 			for i, a := range args {
 				var at types.Type
 				if c.IsInvoke() || (sig.Recv() != nil) {
@@ -358,12 +383,18 @@ func (ft *FT) call(st *State, guard Term, c *ssa.CallCommon, preArgs []Term, ins
 		}
 		return rs
 	}
+	if callee == nil && !c.IsInvoke() {
+		if pc := ft.paramContract(c.Value); pc != nil {
+			return ft.paramCall(st, guard, pc, c, args, pos)
+		}
+	}
 	if con := ft.eng.cons.Funcs[name]; con != nil {
 		con.Used = true
+		if strings.HasPrefix(name, "dyn(") {
+			ft.dynSelf = &SpecVal{T: ft.val(c.Value), Typ: c.Value.Type(), Sort: "Int"}
+			defer func() { ft.dynSelf = nil }()
+		}
 		return ft.contractCall(st, guard, con, name, callee, closure, c, args, pos)
-	}
-	if pc := ft.paramContract(c.Value); pc != nil {
-		return ft.paramCall(st, guard, pc, c, args, pos)
 	}
 	if callee != nil && callee.Blocks == nil && purePkgs[calleePkgPath(callee)] && !isImpure(name) {
 		// heap-pure library function: deterministic function of scalar arguments
@@ -512,6 +543,12 @@ func (ft *FT) calleeCtx(callee *ssa.Function, closure *ssa.MakeClosure, c *ssa.C
 		}
 		vars[n] = SpecVal{T: args[i+k], Typ: p.Type(), Sort: ft.d.sortOf(p.Type())}
 		vars[fmt.Sprintf("arg%d", k)] = vars[n]
+	}
+	if ft.dynSelf != nil && callee == nil && !c.IsInvoke() {
+		vars["self"] = *ft.dynSelf
+		if n, ok := types.Unalias(c.Value.Type()).(*types.Named); ok && n.Obj().Pkg() != nil {
+			pkg = n.Obj().Pkg()
+		}
 	}
 	ctx := &SpecCtx{ft: ft, pkg: pkg, st: st, old: old, vars: vars}
 	if closure != nil {
